@@ -158,7 +158,7 @@ func cmdCheck(args []string) {
 	coverTimeout := 1
 	if *tier == "thorough" {
 		timeout = 60
-		coverTimeout = 10
+		coverTimeout = 5
 		thoroughMode = true
 		os.Setenv("OWVC_THOROUGH", "1") // bounded companions explore denser grids
 	}
@@ -515,7 +515,7 @@ func cmdCheck(args []string) {
 	}
 	if *tier == "thorough" && !selftestRun {
 		cov["second_opinions"] = map[string]interface{}{"obligations_confirmed_by_a_second_solver_or_variant": nSecond, "contradictions": nClash,
-			"meaning": "thorough tier: after the first definitive answer the other solvers get 3 s more on the same query; an unsat contradicted by a sat on the full query is not counted as discharged"}
+			"meaning": "thorough tier: after the first definitive answer the other solvers get 1.5 s more on the same query; an unsat contradicted by a sat on the full query is not counted as discharged"}
 		cov["selftest"] = selfTest(id)
 	}
 	if selftestRun {
